@@ -390,8 +390,8 @@ func (in *cinst) ExtraKey() uint64 {
 
 func (in *cinst) Check(res *mcrt.Result) []explore.Violation {
 	var vs []explore.Violation
-	if res.Deadlock || len(res.Panics) > 0 {
-		vs = append(vs, explore.Violation{Prop: "C15", Msg: fmt.Sprintf("deadlock=%v panics=%v", res.Deadlock, res.Panics)})
+	if res.Deadlock || len(res.Panics) > 0 || res.Capped {
+		vs = append(vs, explore.Violation{Prop: "C15", Msg: fmt.Sprintf("deadlock=%v capped=%v panics=%v", res.Deadlock, res.Capped, res.Panics)})
 		return vs
 	}
 	if in.dest.over {
